@@ -106,8 +106,11 @@ def run_batch(cases, cpu_ms=2000, vdrv=None, env=None):
         with os.fdopen(fd, "w") as f:
             for c in cases:
                 f.write(c.text())
+        # scripts name files relative to the working directory (sqlite3.open("select 1")): keep those out of /verif
+        cwd = os.path.join(scratch_dir(), "cwd")
+        os.makedirs(cwd, exist_ok=True)
         p = subprocess.run([vdrv, path, str(cpu_ms)], stdout=subprocess.PIPE, stderr=subprocess.PIPE,
-                           env=env or build.run_env(_TREE[0]))
+                           env=env or build.run_env(_TREE[0]), cwd=cwd)
         out = p.stdout.decode("utf-8", errors="replace").splitlines()
         res = []
         for line in out:
